@@ -68,6 +68,11 @@ CertFailures(ev) ==
   (IF ev.gen_exit = 0 /\ ev.out = ChainBytes(chain) THEN {} ELSE {"gen-certurl output is not the specified cert-chain+cbor"})
   \cup (IF ev.dump_exit = 0 THEN {} ELSE {"dump-certurl rejects gen-certurl's output"})
 
+\* the same logical input (same files, created in different orders) gives the same bytes and the same exit status
+CertPureFailures(ev) ==
+  IF \A i \in 1..Len(ev.outs) : ev.outs[i] = ev.outs[1] /\ ev.exits[i] = ev.exits[1] THEN {}
+  ELSE {"gen-certurl output depends on the order in which the files of -sctDir were created"}
+
 SxgFailures(ev) ==
   LET rr == RefRead(ev.file) IN
   (IF ev.gen_exit = 0 THEN {} ELSE {"gen-signedexchange failed on flags within the documented range"})
@@ -115,7 +120,7 @@ HarFailures(ev) ==
                 /\ { [url |-> x.exs[i].url, status |-> x.exs[i].status, body |-> x.exs[i].body, hs |-> x.exs[i].hs] : i \in 1..Len(x.exs) } = HarExpected(ev.entries)
              THEN {} ELSE {"bundle from HAR does not hold exactly the GET entries with banned / pseudo headers dropped"})
 
-Failures(ev) == CASE ev.kind = "dirbundle" -> DirFailures(ev) [] ev.kind = "ibcli" -> IbFailures(ev) [] ev.kind = "certcli" -> CertFailures(ev)
+Failures(ev) == CASE ev.kind = "dirbundle" -> DirFailures(ev) [] ev.kind = "ibcli" -> IbFailures(ev) [] ev.kind = "certcli" -> CertFailures(ev) [] ev.kind = "certpure" -> CertPureFailures(ev)
                   [] ev.kind = "sxgcli" -> SxgFailures(ev) [] ev.kind = "sxgflags" -> SxgFlagFailures(ev) [] ev.kind = "harcli" -> HarFailures(ev)
 TraceInit == l = 1
 TraceNext ==
